@@ -442,8 +442,12 @@ def run_shard(spec, seed):
 
             hypothesis_search(strat, body, seed, spec["n"], res, batch=500)
         else:
+            # members that are complete opcode sequences without a payload (a lone STOP, header +
+            # STOP): nothing the VM could load, but they are there and have to stay there
+            bare = st.sampled_from([b".", b"\x80\x04.", b"\x80\x02.", b"\x80\x04\x95\x00\x00\x00\x00\x00\x00\x00\x00."])
+            member = st.one_of(*([firsts.map(lambda t: t[0])] * 7), bare)
             strat = st.tuples(
-                st.lists(firsts.map(lambda t: t[0]), min_size=1, max_size=6),
+                st.lists(member, min_size=1, max_size=6),
                 st.sampled_from(["bytes", "bytesio", "raw_seekable", "raw_seekable", "non_seekable"]),
             )
 
